@@ -137,6 +137,74 @@ def rule_subscribe(ctx):
     return 3
 
 
+def rule_status(ctx):
+    '''address_status: (a) the mempool part is the last thing read - no suspension separates it from the return, because
+    the freshness loop of the history read validates the history only; (b) the script hash is tracked in
+    mempool_statuses exactly when its mempool part is non-empty (height changes re-examine the tracked ones only).'''
+    from ..suspend import Suspension
+    sus = Suspension(ctx)
+    f = ctx.func('sess', 'ElectrumX.address_status')
+    cfg = ctx.cfg(f)
+    mp_cls = 'MemPool'
+    reads = []
+    for c in q.own_calls(f):
+        t = ctx.res.resolve_ref(c.func, f)
+        if t is not None and t.cls == mp_cls:
+            reads.append(c)
+    if len(reads) != 1 or not isinstance(q.stmt(reads[0]), ast.Assign) or not isinstance(q.stmt(reads[0]).targets[0], ast.Name):
+        raise AnalysisError(f'{f.key}: expected one `x = await self.mempool.<summaries>(hashX)` read')
+    rs = q.stmt(reads[0])
+    mv = rs.targets[0].id
+    rn = cfg.node(rs)
+    later = []
+    for m in cfg.reachable_from(rn):
+        if m == rn:
+            continue
+        a = cfg.ast(m)
+        if a is not None and cfg.kind(m) not in ('with_exit',):
+            r = sus.stmt_suspends(a, f)
+            if r:
+                later.append(f'{cfg.label(m)}: {r}')
+    own = sus.stmt_suspends(rs, f)
+    ctx.check(not later and not own, 'C07.SNAPSHOT', ctx.key(f, rs, 'mempool part read last'),
+              'no suspension point follows the mempool read: the status is computed from a mempool snapshot taken at the moment the '
+              '(validated) history read completed',
+              'a suspension point follows the mempool read (' + '; '.join(later[:2] or [str(own)]) + '): a refresh notified during it is '
+              'lost - the session is not registered yet - and the returned status is built from the older mempool snapshot',
+              loc=ctx.loc(f, rs))
+    # (b)
+    hx = f.params[1]
+    stores = [s_ for s_ in f.own_nodes() if isinstance(s_, ast.Assign) and isinstance(s_.targets[0], ast.Subscript)
+              and ctx.res.canon(s_.targets[0].value, f) == 'self.mempool_statuses' and norm(s_.targets[0].slice) == hx]
+    ok, why = False, 'no `self.mempool_statuses[hashX] = status` store'
+    if len(stores) == 1:
+        conds = pr.control_conditions(stores[0], f.node)
+        extra = [norm(t) for t, b, _p in conds if not (b and isinstance(t, ast.Name) and t.id == mv)]
+        ok = not extra
+        why = f'the store is conditioned on {extra}'
+        if ok:
+            # every path on which the mempool part may be non-empty passes the store: the only way round it is the false edge of `if <mv>`
+            ifs = [p_ for t, b, p_ in conds]
+            avoid = {cfg.node(stores[0])}
+            p = None
+            if ifs:
+                ifn = cfg.node(ifs[-1])
+                te = [m for m in cfg.g.successors(ifn) if 'true' in cfg.g[ifn][m]['kinds']]
+                p = pr.path_avoiding(cfg, te, [cfg.exit], avoid)
+                pre = pr.path_avoiding(cfg, [rn], [cfg.exit], {ifn})
+                if pre is not None and not any(cfg.kind(x) == 'raise' for x in pre):
+                    p = pre
+            else:
+                p = pr.path_avoiding(cfg, [rn], [cfg.exit], avoid)
+            ok = p is None
+            why = 'a normal path from the mempool read to the return skips the store'
+    ctx.check(ok, 'C07.MPSTATUS', ctx.key(f, stores[0] if stores else None, 'tracked iff mempool part non-empty'),
+              'the script hash is tracked in mempool_statuses whenever its mempool part is non-empty',
+              f'{why}: a script hash with unconfirmed transactions is not tracked, so the flip of has-unconfirmed-inputs when the '
+              'parent confirms is never re-examined on the height change', loc=ctx.loc(f, stores[0] if stores else f.node))
+    return 2
+
+
 def rule_fanout(ctx):
     n = 0
     ns = ctx.func('sess', 'SessionManager._notify_sessions')
@@ -314,6 +382,7 @@ def run(ctx):
         ctx.rule('C07.EPOCH', lambda: rule_epoch_bumped(ctx, f, 'self._touched_count', 'C07.EPOCH',
                                                         must_precede=[cfg.node(q.stmt(s)) for s in spawns] + [cfg.exit]), 1)
     ctx.rule('C07.SUBSCRIBE', lambda: rule_subscribe(ctx), 3)
+    ctx.rule('C07.STATUS', lambda: rule_status(ctx), 2)
     ctx.rule('C07.FANOUT', lambda: rule_fanout(ctx), 11)
     ctx.rule('C07.TOUCHED', lambda: rule_advance_touched(ctx) + c03.rule_touched(ctx, 'C07.TOUCHED'), 5)
     ctx.rule('C20', lambda: c20._run(ctx))
